@@ -559,8 +559,7 @@ Proof.
 Qed.
 
 (* ---------- the guard of the partial theorems and its inheritance by sub-values ---------- *)
-Definition g (v : pyval) : bool := wf v && no_pandas v.
-Ltac gsplit H Hwf Hnp := unfold g in H; apply andb_true_iff in H; destruct H as [Hwf Hnp].
+Definition g (v : pyval) : bool := wf v.
 
 Lemma fn_seq : forall q sk l, forall_nodes q (PSeq sk l) = q (PSeq sk l) && forallb (forall_nodes q) l.
 Proof. reflexivity. Qed.
@@ -570,30 +569,19 @@ Lemma fn_map : forall q mk kvs, forall_nodes q (PMap mk kvs) =
   q (PMap mk kvs) && forallb (fun kv => forall_nodes q (fst kv) && forall_nodes q (snd kv)) kvs.
 Proof. reflexivity. Qed.
 
-Lemma g_intro : forall v, wf v = true -> no_pandas v = true -> g v = true.
-Proof. intros v H1 H3. unfold g. rewrite H1, H3. reflexivity. Qed.
-
 Lemma g_seq_children : forall sk l, g (PSeq sk l) = true -> (forall d sh, sk <> KNd true d sh) ->
   Forall (fun x => g x = true) l.
 Proof.
-  intros sk l H Hsk. gsplit H Hwf Hnp.
-  unfold no_pandas in Hnp.
-  rewrite fn_seq in Hnp. bsplit.
-  assert (Hw : forallb wf l = true).
-  { simpl in Hwf. bsplit. destruct sk; auto. destruct masked; auto. exfalso. eapply Hsk; eauto. }
-  apply Forall_forall. intros x Hx.
-  repeat match goal with H : forallb _ l = true |- _ => rewrite forallb_forall in H; specialize (H x Hx) end.
-  apply g_intro; auto.
+  intros sk l H Hsk. apply Forall_forall. intros x Hx. assert (Hw := wf_seq_children sk l H Hsk).
+  rewrite forallb_forall in Hw. apply Hw. exact Hx.
 Qed.
 
 Lemma g_map_values : forall mk kvs, g (PMap mk kvs) = true -> Forall (fun kv => g (snd kv) = true) kvs.
 Proof.
-  intros mk kvs H. gsplit H Hwf Hnp.
-  unfold no_pandas in Hnp.
-  rewrite fn_map in Hnp. simpl in Hwf. bsplit.
-  apply Forall_forall. intros x Hx.
-  repeat match goal with H : forallb _ kvs = true |- _ => rewrite forallb_forall in H; specialize (H x Hx) end.
-  bsplit. apply g_intro; auto.
+  intros mk kvs H. unfold g in H. simpl in H. apply andb_true_iff in H. destruct H as [H _].
+  apply andb_true_iff in H. destruct H as [H _]. apply andb_true_iff in H. destruct H as [H _].
+  apply Forall_forall. intros kv Hkv. rewrite forallb_forall in H. specialize (H kv Hkv).
+  apply andb_true_iff in H. destruct H. assumption.
 Qed.
 
 Definition atomic (x : pyval) : bool := match x with PA _ => true | _ => false end.
@@ -785,10 +773,18 @@ Ltac case_iter H d Hd :=
   | context [hashable_iterable ?b ?e] => destruct (hashable_iterable b e) as [d|?] eqn:Hd; [|discriminate]
   end.
 
-Theorem eq_implies_key_eq_g : forall fp v w,
+Section EqImplies.
+  (* the two pandas leaves are proved further down (series_eq, frame_eq) and plugged in by eq_implies_key_eq *)
+  Variable fp : bool.
+  Hypothesis series_eq : forall n d i x w, wf (PSeries n d i x) = true -> wf w = true ->
+    rel true (PSeries n d i x) w = true -> keq fp (PSeries n d i x) w.
+  Hypothesis frame_eq : forall c i w, wf (PFrame c i) = true -> wf w = true ->
+    rel true (PFrame c i) w = true -> keq fp (PFrame c i) w.
+
+Theorem eq_implies_key_eq_g : forall v w,
   g v = true -> g w = true -> rel true v w = true -> keq fp v w.
 Proof.
-  intros fp v. induction v as [a|sk l IH|sk l IH|mk kvs IH|n d i x|c i] using pyval_ind2;
+  intros v. induction v as [a|sk l IH|sk l IH|mk kvs IH|n d i x|c i] using pyval_ind2;
     intros w Hg Hg' Hrel k k' Hk Hk'.
   - (* scalars *)
     destruct w as [b| | | | |]; try discriminate. rewrite rel_atom_l in Hrel.
@@ -806,8 +802,8 @@ Proof.
     assert (Hhh := rel_true_hashable _ _ Hrel).
     rewrite rel_seq_unfold in Hrel. apply andb_true_iff in Hrel. destruct Hrel as [Hsk Hl].
     apply seqkind_eqb_eq in Hsk. subst sk'.
-    assert (Hwf : wf (PSeq sk l) = true) by (unfold g in Hg; bsplit; assumption).
-    assert (Hwf' : wf (PSeq sk l') = true) by (unfold g in Hg'; bsplit; assumption).
+    assert (Hwf : wf (PSeq sk l) = true) by exact Hg.
+    assert (Hwf' : wf (PSeq sk l') = true) by exact Hg'.
     destruct (py_hashable (PSeq sk l)) eqn:Hh.
     { rewrite th_hashable in Hk by exact Hh. rewrite th_hashable in Hk' by (rewrite <- Hhh; reflexivity).
       inversion Hk; inversion Hk'; subst.
@@ -864,8 +860,8 @@ Proof.
   - (* sets *)
     destruct w as [| |sk' l'| | |]; try discriminate.
     assert (Hhh := rel_true_hashable _ _ Hrel).
-    assert (Hwf : wf (PSetv sk l) = true) by (unfold g in Hg; bsplit; assumption).
-    assert (Hwf' : wf (PSetv sk' l') = true) by (unfold g in Hg'; bsplit; assumption).
+    assert (Hwf : wf (PSetv sk l) = true) by exact Hg.
+    assert (Hwf' : wf (PSetv sk' l') = true) by exact Hg'.
     destruct (py_hashable (PSetv sk l)) eqn:Hh.
     { rewrite th_hashable in Hk by exact Hh. rewrite th_hashable in Hk' by (rewrite <- Hhh; reflexivity).
       inversion Hk; inversion Hk'; subst.
@@ -894,8 +890,8 @@ Proof.
     assert (HIH : forall kv kv', In kv kvs -> In kv' kvs' -> rel true (snd kv) (snd kv') = true ->
                                  keq fp (snd kv) (snd kv')).
     { intros kv kv' Hkv Hkv' Hr. destruct (IH kv Hkv) as [_ IHv]. apply IHv; auto. }
-    assert (Hwf : wf (PMap mk kvs) = true) by (unfold g in Hg; bsplit; assumption).
-    assert (Hwf' : wf (PMap mk kvs') = true) by (unfold g in Hg'; bsplit; assumption).
+    assert (Hwf : wf (PMap mk kvs) = true) by exact Hg.
+    assert (Hwf' : wf (PMap mk kvs') = true) by exact Hg'.
     assert (HwD : wf (PDict kvs) = true).
     { simpl in Hwf |- *. apply andb_true_iff in Hwf. destruct Hwf as [Hwf _]. rewrite Hwf. reflexivity. }
     assert (HwD' : wf (PDict kvs') = true).
@@ -946,17 +942,10 @@ Proof.
       apply mk_items_strip_incl in Hit.
       apply in_mk_items in Hit. destruct Hit as (kv & Hkv & ->). simpl.
       rewrite forallb_forall in Hci. apply scalar_atomic. rewrite (Hci kv Hkv). reflexivity.
-  - unfold g in Hg. bsplit. match goal with H : no_pandas _ = true |- _ => unfold no_pandas in H; simpl in H; discriminate end.
-  - unfold g in Hg. bsplit. match goal with H : no_pandas _ = true |- _ => unfold no_pandas in H; simpl in H; discriminate end.
+  - exact (series_eq n d i x w Hg Hg' Hrel k k' Hk Hk').
+  - exact (frame_eq c i w Hg Hg' Hrel k k' Hk Hk').
 Qed.
-
-Theorem eq_implies_key_eq : forall fp v w k k',
-  wf v = true -> wf w = true -> no_pandas v = true -> no_pandas w = true ->
-  py_same v w = true -> to_hashable fp v = Ok k -> to_hashable fp w = Ok k' -> py_eq k k' = true.
-Proof.
-  intros fp v w k k' H1 H2 H5 H6 Hs Hk Hk'.
-  exact (eq_implies_key_eq_g fp v w (g_intro v H1 H5) (g_intro w H2 H6) Hs k k' Hk Hk').
-Qed.
+End EqImplies.
 
 (* ================= totality ================= *)
 Lemma mapM_exists {A B} (f : A -> result B) : forall l,
@@ -1867,4 +1856,315 @@ Proof.
   intros fp v Hwf Hc. apply total_g; auto.
   - intros n d i x H. destruct (series_key fp n d i x H) as (k & Hk & _). eauto.
   - intros c i H. destruct (frame_key fp c i H) as (k & Hk & _). eauto.
+Qed.
+
+(* ================= pandas values: equal values of the same type get equal keys ================= *)
+Lemma cell_eq_cong : forall a a' b b',
+  cell_ok a = true -> cell_ok a' = true -> cell_ok b = true -> cell_ok b' = true ->
+  atom_eq a a' = true -> atom_eq b b' = true -> atom_eq a b = atom_eq a' b'.
+Proof.
+  intros a a' b b' Ca Ca' Cb Cb' Ha Hb.
+  destruct (cell_hashable a Ca) as [Ha1 Ha2], (cell_hashable a' Ca') as [Ha1' Ha2'],
+           (cell_hashable b Cb) as [Hb1 Hb2], (cell_hashable b' Cb') as [Hb1' Hb2'].
+  apply (ckey_atoms a a') in Ha; auto. apply (ckey_atoms b b') in Hb; auto.
+  destruct (atom_eq a b) eqn:E; destruct (atom_eq a' b') eqn:E'; auto.
+  - apply (ckey_atoms a b) in E; auto. assert (H : ckey (PA a') = ckey (PA b')) by congruence.
+    apply (ckey_atoms a' b') in H; auto. congruence.
+  - apply (ckey_atoms a' b') in E'; auto. assert (H : ckey (PA a) = ckey (PA b)) by congruence.
+    apply (ckey_atoms a b) in H; auto. congruence.
+Qed.
+
+Definition kvR (kv kv' : atom * atom) : Prop := atom_eq (fst kv) (fst kv') = true /\ atom_eq (snd kv) (snd kv') = true.
+Definition keys_cells (d : list (atom * atom)) : Prop := forall kv, In kv d -> cell_ok (fst kv) = true.
+
+Lemma dict_set_keys_cells : forall d k v, keys_cells d -> cell_ok k = true -> keys_cells (dict_set d k v).
+Proof.
+  intros d k v Hd Hk kv Hin. destruct (dict_set_in d k v kv Hin) as [[H|H] _]; [|subst; auto].
+  apply in_map_iff in H. destruct H as (kv' & <- & Hin'). auto.
+Qed.
+
+Lemma dict_set_cong : forall d d' k k' v v',
+  Forall2 kvR d d' -> keys_cells d -> keys_cells d' -> cell_ok k = true -> cell_ok k' = true ->
+  atom_eq k k' = true -> atom_eq v v' = true -> Forall2 kvR (dict_set d k v) (dict_set d' k' v').
+Proof.
+  intros d d' k k' v v' HF. revert k k' v v'.
+  induction HF as [|[k1 v1] [k1' v1'] d d' [Hk1 Hv1] HF IH]; intros k k' v v' Hd Hd' Ck Ck' Hk Hv; simpl.
+  - repeat constructor; auto.
+  - simpl in Hk1, Hv1.
+    assert (C1 : cell_ok k1 = true) by (apply (Hd (k1, v1)); simpl; auto).
+    assert (C1' : cell_ok k1' = true) by (apply (Hd' (k1', v1')); simpl; auto).
+    rewrite <- (cell_eq_cong k1 k1' k k' C1 C1' Ck Ck' Hk1 Hk).
+    destruct (atom_eq k1 k).
+    + constructor; auto. split; auto.
+    + constructor; [split; auto|]. apply IH; auto; intros kv Hin; [apply Hd|apply Hd']; simpl; auto.
+Qed.
+
+Lemma list_eqb_Forall2 {A} (eqb : A -> A -> bool) : forall l l', list_eqb eqb l l' = true ->
+  Forall2 (fun x y => eqb x y = true) l l'.
+Proof.
+  induction l as [|x t IH]; destruct l' as [|y t']; simpl; intros H; try discriminate; constructor.
+  - apply andb_true_iff in H. tauto.
+  - apply IH. apply andb_true_iff in H. tauto.
+Qed.
+
+Lemma fold_dict_cong : forall l l', Forall2 kvR l l' ->
+  (forall kv, In kv l -> cell_ok (fst kv) = true) -> (forall kv, In kv l' -> cell_ok (fst kv) = true) ->
+  forall d d', Forall2 kvR d d' -> keys_cells d -> keys_cells d' ->
+  Forall2 kvR (fold_left (fun d kv => dict_set d (fst kv) (snd kv)) l d)
+              (fold_left (fun d kv => dict_set d (fst kv) (snd kv)) l' d').
+Proof.
+  induction 1 as [|kv kv' l l' [Hkk Hvv] HC IH]; intros Hk Hk' d d' HF Kd Kd'; simpl; auto.
+  apply IH.
+  - intros; apply Hk; simpl; auto.
+  - intros; apply Hk'; simpl; auto.
+  - apply dict_set_cong; auto; [apply Hk|apply Hk']; simpl; auto.
+  - apply dict_set_keys_cells; auto. apply Hk. simpl. auto.
+  - apply dict_set_keys_cells; auto. apply Hk'. simpl. auto.
+Qed.
+
+Lemma to_dict_cong : forall idx idx' vals vals',
+  (forall a, In a idx -> cell_ok a = true) -> (forall a, In a idx' -> cell_ok a = true) ->
+  list_eqb atom_eq idx idx' = true -> list_eqb atom_eq vals vals' = true ->
+  Forall2 kvR (to_dict idx vals) (to_dict idx' vals').
+Proof.
+  intros idx idx' vals vals' Hc Hc' Hi Hv. unfold to_dict.
+  apply list_eqb_Forall2 in Hi. apply list_eqb_Forall2 in Hv.
+  assert (HC : Forall2 kvR (combine idx vals) (combine idx' vals')).
+  { clear Hc Hc'. revert vals vals' Hv. induction Hi as [|a a' idx idx' Ha Hi IH]; intros vals vals' Hv; simpl; [constructor|].
+    destruct Hv as [|b b' vals vals' Hb Hv]; [constructor|]. constructor; [split; auto|]. apply IH; auto. }
+  apply fold_dict_cong; auto.
+  - intros [k v] H. apply Hc. eapply in_combine_l; eauto.
+  - intros [k v] H. apply Hc'. eapply in_combine_l; eauto.
+  - intros kv [].
+  - intros kv [].
+Qed.
+
+Definition lift (kv : atom * atom) : pyval * pyval := (PA (fst kv), PA (snd kv)).
+
+Lemma series_items : forall fp (D : list (atom * atom)),
+  map (fun kv : atom * atom => (PA (fst kv), PA (snd kv), th_atom fp (snd kv)) : item) D = mk_items fp (map lift D).
+Proof.
+  intros fp D. unfold mk_items. rewrite map_map. apply map_ext. intros kv. unfold lift. cbn [fst snd].
+  rewrite th_atom_eq. reflexivity.
+Qed.
+
+Lemma lift_wf : forall D, dict_inv cellP cellP D -> wf (PDict (map lift D)) = true.
+Proof.
+  intros D [Hn Hd]. cbn [wf]. rewrite andb_true_r. apply andb_true_iff. split; [apply andb_true_iff; split|].
+  - apply forallb_forall. intros kv Hkv. apply in_map_iff in Hkv. destruct Hkv as (a & <- & Ha).
+    destruct (Hd a Ha) as [H1 H2]. unfold lift. cbn [fst snd].
+    destruct (cell_hashable _ H1) as [_ W1], (cell_hashable _ H2) as [_ W2]. rewrite W1, W2. reflexivity.
+  - apply forallb_forall. intros kv Hkv. apply in_map_iff in Hkv. destruct Hkv as (a & <- & Ha).
+    destruct (Hd a Ha) as [H1 _]. unfold lift. cbn [fst]. simpl. apply cell_hashable. auto.
+  - rewrite map_map. cbn [lift fst]. rewrite <- (map_map fst PA). apply atoms_nodup_rel. exact Hn.
+Qed.
+
+Lemma lift_rel_dict : forall D D', Forall2 kvR D D' -> rel_dict true (map lift D) (map lift D') = true.
+Proof.
+  intros D D' HF. unfold rel_dict. apply andb_true_iff. split.
+  - apply Nat.eqb_eq. rewrite !map_length. eapply Forall2_len; eauto.
+  - apply forallb_forall. intros kv Hkv. apply in_map_iff in Hkv. destruct Hkv as (a & <- & Ha).
+    destruct (Forall2_in_l _ _ _ HF a Ha) as (b & Hb & [H1 H2]). apply existsb_exists. exists (lift b). split.
+    + apply in_map. auto.
+    + unfold lift. cbn [fst snd]. rewrite !rel_atom_l, H1, H2. reflexivity.
+Qed.
+
+Lemma cells_keq : forall fp a b, cell_ok a = true -> cell_ok b = true -> rel true (PA a) (PA b) = true ->
+  keq fp (PA a) (PA b).
+Proof.
+  intros fp a b Ca Cb Hr k k' Hk Hk'. rewrite th_atom_eq in Hk, Hk'. rewrite th_atom_cell in Hk, Hk' by auto.
+  inversion Hk; inversion Hk'; subst. rewrite rel_atom_l in *. exact Hr.
+Qed.
+
+Theorem series_eq : forall fp n d i x w, wf (PSeries n d i x) = true -> wf w = true ->
+  rel true (PSeries n d i x) w = true -> keq fp (PSeries n d i x) w.
+Proof.
+  intros fp n d i x w Hwf Hwf' Hrel k k' Hk Hk'.
+  destruct w as [| | | |n' d' i' x'|]; try discriminate.
+  simpl in Hrel. apply andb_true_iff in Hrel. destruct Hrel as [Hrel Hx]. apply andb_true_iff in Hrel.
+  destruct Hrel as [Hrel Hi]. apply andb_true_iff in Hrel. destruct Hrel as [Hn Hd].
+  assert (Hcells : forall n d i x, wf (PSeries n d i x) = true ->
+            (forall a, In a i -> cell_ok a = true) /\ (forall a, In a x -> cell_ok a = true)).
+  { clear. intros n d i x H. simpl in H. repeat (apply andb_true_iff in H; destruct H as [H ?]).
+    rewrite forallb_forall in *. split; auto. }
+  destruct (Hcells _ _ _ _ Hwf) as [Ci Cx]. destruct (Hcells _ _ _ _ Hwf') as [Ci' Cx'].
+  assert (Inv := to_dict_inv cellP cellP i x Ci Cx). assert (Inv' := to_dict_inv cellP cellP i' x' Ci' Cx').
+  assert (HF := to_dict_cong i i' x x' Ci Ci' Hi Hx).
+  change (to_hashable fp (PSeries n d i x)) with
+    (do dk <- hashable_mapping true (map (fun kv : atom * atom => (PA (fst kv), PA (snd kv), th_atom fp (snd kv)) : item)
+                                         (to_dict i x));
+     Ok (conv (s "Series") (PTuple [PA n; conv (s "dict") dk]))) in Hk.
+  change (to_hashable fp (PSeries n' d' i' x')) with
+    (do dk <- hashable_mapping true (map (fun kv : atom * atom => (PA (fst kv), PA (snd kv), th_atom fp (snd kv)) : item)
+                                         (to_dict i' x'));
+     Ok (conv (s "Series") (PTuple [PA n'; conv (s "dict") dk]))) in Hk'.
+  rewrite series_items in Hk, Hk'.
+  destruct (hashable_mapping true (mk_items fp (map lift (to_dict i x)))) as [dk|e] eqn:Hdk; [|discriminate].
+  destruct (hashable_mapping true (mk_items fp (map lift (to_dict i' x')))) as [dk'|e] eqn:Hdk'; [|discriminate].
+  cbn [bind] in Hk, Hk'. inversion Hk; inversion Hk'; subst.
+  rewrite conv_rel, str_eqb_refl. cbn [andb]. rewrite rel_tuple. cbn [rel_list].
+  rewrite rel_atom_l, Hn. cbn [andb]. rewrite conv_rel, str_eqb_refl. cbn [andb]. rewrite andb_true_r.
+  eapply (map_canon fp (map lift (to_dict i x)) (map lift (to_dict i' x'))); eauto using lift_wf, lift_rel_dict.
+  intros kv kv' Hkv Hkv' Hr. apply in_map_iff in Hkv. destruct Hkv as (a & <- & Ha).
+  apply in_map_iff in Hkv'. destruct Hkv' as (b & <- & Hb). unfold lift in *. cbn [snd] in *.
+  destruct Inv as [_ Hd1], Inv' as [_ Hd2]. apply cells_keq; auto; [apply Hd1|apply Hd2]; auto.
+Qed.
+
+Definition colT := (atom * (str * list atom))%type.
+Definition colR (a b : colT) : Prop :=
+  atom_eq (fst a) (fst b) = true /\ list_eqb atom_eq (snd (snd a)) (snd (snd b)) = true.
+
+Lemma frame_dict_fold : forall cols d,
+  fold_left (fun d (c : colT) => dict_set d (fst c) (AInt 0)) cols d =
+  fold_left (fun d kv => dict_set d (fst kv) (snd kv)) (map (fun c : colT => (fst c, AInt 0)) cols) d.
+Proof. induction cols as [|c t IH]; intros d; simpl; auto. Qed.
+
+Lemma frame_dict_cong : forall cols cols', Forall2 colR cols cols' ->
+  (forall c, In c cols -> cell_ok (fst c) = true) -> (forall c, In c cols' -> cell_ok (fst c) = true) ->
+  Forall2 kvR (frame_dict cols) (frame_dict cols').
+Proof.
+  intros cols cols' HF Hc Hc'. unfold frame_dict. rewrite !frame_dict_fold. apply fold_dict_cong.
+  - clear Hc Hc'. induction HF as [|a b l l' [H1 _] HF IH]; simpl; constructor; auto. split; auto.
+  - intros kv H. apply in_map_iff in H. destruct H as (c & <- & Hin). simpl. auto.
+  - intros kv H. apply in_map_iff in H. destruct H as (c & <- & Hin). simpl. auto.
+  - constructor.
+  - intros kv [].
+  - intros kv [].
+Qed.
+
+Lemma frame_colval_cong : forall cols cols' c c', Forall2 colR cols cols' ->
+  (forall col, In col cols -> cell_ok (fst col) = true) -> (forall col, In col cols' -> cell_ok (fst col) = true) ->
+  cell_ok c = true -> cell_ok c' = true -> atom_eq c c' = true ->
+  list_eqb atom_eq (frame_colval cols c) (frame_colval cols' c') = true.
+Proof.
+  intros cols cols' c c' HF Hc Hc' Cc Cc' Hcc. unfold frame_colval.
+  assert (H0 : list_eqb atom_eq (@nil atom) (@nil atom) = true) by reflexivity.
+  revert H0. generalize (@nil atom) at 1 3. generalize (@nil atom).
+  induction HF as [|a b l l' [H1 H2] HF IH]; intros acc' acc Hacc; simpl; auto.
+  apply IH; [intros; apply Hc; simpl; auto|intros; apply Hc'; simpl; auto|].
+  rewrite <- (cell_eq_cong (fst a) (fst b) c c'); auto; [|apply Hc; simpl; auto|apply Hc'; simpl; auto].
+  destruct (atom_eq (fst a) c); auto.
+Qed.
+
+Definition liftF (cols : list colT) (kv : atom * atom) : pyval * pyval :=
+  (PA (fst kv), PList (map PA (frame_colval cols (fst kv)))).
+
+Lemma th_list_cells : forall fp vs,
+  to_hashable fp (PList (map PA vs)) =
+  (do d <- hashable_iterable false (map (fun a => (PA a, th_atom fp a)) vs); Ok (conv (s "list") d)).
+Proof.
+  intros fp vs. rewrite th_seq by reflexivity. unfold seq_body. rewrite map_map.
+  replace (map (fun x : atom => (PA x, to_hashable fp (PA x))) vs) with (map (fun a => (PA a, th_atom fp a)) vs).
+  - reflexivity.
+  - apply map_ext. intros a. rewrite th_atom_eq. reflexivity.
+Qed.
+
+Lemma frame_items : forall fp cols (D : list (atom * atom)),
+  map (fun kv : atom * atom =>
+         let vs := frame_colval cols (fst kv) in
+         (PA (fst kv), PList (map PA vs),
+          do d <- hashable_iterable false (map (fun a => (PA a, th_atom fp a)) vs); Ok (conv (s "list") d)) : item) D
+  = mk_items fp (map (liftF cols) D).
+Proof.
+  intros fp cols D. unfold mk_items. rewrite map_map. apply map_ext. intros kv. unfold liftF. cbn [fst snd].
+  rewrite th_list_cells. reflexivity.
+Qed.
+
+Lemma cells_wf : forall vs, (forall a, In a vs -> cell_ok a = true) -> forallb wf (map PA vs) = true.
+Proof.
+  intros vs Hc. apply forallb_forall. intros x Hx. apply in_map_iff in Hx. destruct Hx as (a & <- & Ha).
+  apply cell_hashable. auto.
+Qed.
+
+Lemma liftF_wf : forall cols D,
+  (forall col, In col cols -> forall x, In x (snd (snd col)) -> cell_ok x = true) ->
+  dict_inv cellP (fun _ => True) D -> wf (PDict (map (liftF cols) D)) = true.
+Proof.
+  intros cols D Hcells [Hn Hd]. cbn [wf]. rewrite andb_true_r. apply andb_true_iff. split; [apply andb_true_iff; split|].
+  - apply forallb_forall. intros kv Hkv. apply in_map_iff in Hkv. destruct Hkv as (a & <- & Ha).
+    destruct (Hd a Ha) as [H1 _]. unfold liftF. cbn [fst snd].
+    destruct (cell_hashable _ H1) as [_ W1]. rewrite W1. cbn [andb wf]. rewrite andb_true_r.
+    apply cells_wf. intros x Hx. eapply frame_colval_cells; eauto.
+  - apply forallb_forall. intros kv Hkv. apply in_map_iff in Hkv. destruct Hkv as (a & <- & Ha).
+    destruct (Hd a Ha) as [H1 _]. unfold liftF. cbn [fst]. simpl. apply cell_hashable. auto.
+  - rewrite map_map. cbn [liftF fst]. rewrite <- (map_map fst PA). apply atoms_nodup_rel. exact Hn.
+Qed.
+
+Lemma atoms_rel_list : forall st vs vs', list_eqb atom_eq vs vs' = true -> rel_list st (map PA vs) (map PA vs') = true.
+Proof.
+  induction vs as [|a t IH]; destruct vs' as [|b t']; simpl; intros H; try discriminate; auto.
+  apply andb_true_iff in H. destruct H as [H1 H2]. rewrite H1. simpl. apply IH. exact H2.
+Qed.
+
+Theorem frame_eq : forall fp c i w, wf (PFrame c i) = true -> wf w = true ->
+  rel true (PFrame c i) w = true -> keq fp (PFrame c i) w.
+Proof.
+  intros fp cols i w Hwf Hwf' Hrel k k' Hk Hk'.
+  destruct w as [| | | | |cols' i']; try discriminate.
+  simpl in Hrel. apply andb_true_iff in Hrel. destruct Hrel as [Hcols _].
+  assert (Hparts : forall cols i, wf (PFrame cols i) = true ->
+            (forall c, In c cols -> cell_ok (fst c) = true)
+            /\ (forall col, In col cols -> forall x, In x (snd (snd col)) -> cell_ok x = true)).
+  { clear. intros cols i H. simpl in H. apply andb_true_iff in H. destruct H as [H _].
+    apply andb_true_iff in H. destruct H as [H _]. rewrite forallb_forall in H. split.
+    - intros c Hc. specialize (H c Hc). repeat (apply andb_true_iff in H; destruct H as [H ?]). auto.
+    - intros c Hc x Hx. specialize (H c Hc). repeat (apply andb_true_iff in H; destruct H as [H ?]).
+      match goal with H : forallb cell_ok (snd (snd c)) = true |- _ => rewrite forallb_forall in H; auto end. }
+  destruct (Hparts _ _ Hwf) as [Hname Hcells]. destruct (Hparts _ _ Hwf') as [Hname' Hcells'].
+  assert (HFc : Forall2 colR cols cols').
+  { apply list_eqb_Forall2 in Hcols. clear -Hcols. induction Hcols as [|a b l l' H HF IH]; constructor; auto.
+    apply andb_true_iff in H. destruct H as [H H3]. apply andb_true_iff in H. destruct H as [H1 H2]. split; auto. }
+  assert (Inv := frame_dict_inv cols Hname). assert (Inv' := frame_dict_inv cols' Hname').
+  assert (HF := frame_dict_cong cols cols' HFc Hname Hname').
+  change (to_hashable fp (PFrame cols i)) with
+    (do dk <- hashable_mapping true
+                (map (fun kv : atom * atom =>
+                        let vs := frame_colval cols (fst kv) in
+                        (PA (fst kv), PList (map PA vs),
+                         do d <- hashable_iterable false (map (fun a => (PA a, th_atom fp a)) vs);
+                         Ok (conv (s "list") d)) : item) (frame_dict cols));
+     Ok (conv (s "DataFrame") (conv (s "dict") dk))) in Hk.
+  change (to_hashable fp (PFrame cols' i')) with
+    (do dk <- hashable_mapping true
+                (map (fun kv : atom * atom =>
+                        let vs := frame_colval cols' (fst kv) in
+                        (PA (fst kv), PList (map PA vs),
+                         do d <- hashable_iterable false (map (fun a => (PA a, th_atom fp a)) vs);
+                         Ok (conv (s "list") d)) : item) (frame_dict cols'));
+     Ok (conv (s "DataFrame") (conv (s "dict") dk))) in Hk'.
+  rewrite frame_items in Hk, Hk'.
+  destruct (hashable_mapping true (mk_items fp (map (liftF cols) (frame_dict cols)))) as [dk|e] eqn:Hdk; [|discriminate].
+  destruct (hashable_mapping true (mk_items fp (map (liftF cols') (frame_dict cols')))) as [dk'|e] eqn:Hdk'; [|discriminate].
+  cbn [bind] in Hk, Hk'. inversion Hk; inversion Hk'; subst.
+  rewrite !conv_rel, !str_eqb_refl. cbn [andb].
+  destruct Inv as [Hn Hd1]. destruct Inv' as [Hn' Hd2].
+  eapply (map_canon fp (map (liftF cols) (frame_dict cols)) (map (liftF cols') (frame_dict cols'))); eauto.
+  - apply liftF_wf; auto. split; auto.
+  - apply liftF_wf; auto. split; auto.
+  - unfold rel_dict. apply andb_true_iff. split.
+    + apply Nat.eqb_eq. rewrite !map_length. eapply Forall2_len; eauto.
+    + apply forallb_forall. intros kv Hkv. apply in_map_iff in Hkv. destruct Hkv as (a & <- & Ha).
+      destruct (Forall2_in_l _ _ _ HF a Ha) as (b & Hb & [H1 _]). apply existsb_exists. exists (liftF cols' b). split.
+      * apply in_map. auto.
+      * unfold liftF. cbn [fst snd]. rewrite rel_atom_l, H1. cbn [andb]. rewrite rel_seq_unfold. cbn [seqkind_eqb andb].
+        apply atoms_rel_list. apply frame_colval_cong; auto; [apply (Hd1 a Ha)|apply (Hd2 b Hb)].
+  - intros kv kv' Hkv Hkv' Hr. apply in_map_iff in Hkv. destruct Hkv as (a & <- & Ha).
+    apply in_map_iff in Hkv'. destruct Hkv' as (b & <- & Hb). unfold liftF in *. cbn [snd] in *.
+    intros k0 k0' Hk0 Hk0'. rewrite th_list_cells in Hk0, Hk0'.
+    rewrite iter_cells in Hk0 by (intros x Hx; exact (frame_colval_cells cols (fst a) x Hcells Hx)).
+    rewrite iter_cells in Hk0' by (intros x Hx; exact (frame_colval_cells cols' (fst b) x Hcells' Hx)).
+    cbn [bind] in Hk0, Hk0'. inversion Hk0; inversion Hk0'; subst.
+    rewrite conv_rel, str_eqb_refl. cbn [andb]. rewrite rel_tuple.
+    rewrite rel_seq_unfold in Hr. cbn [seqkind_eqb andb] in Hr.
+    apply rel_list_atomic; auto. apply forallb_forall. intros y Hy. apply in_map_iff in Hy. destruct Hy as (z & <- & _).
+    reflexivity.
+Qed.
+
+(* equal values of the same type get equal keys - FULL: every pair of well-formed values, pandas included *)
+Theorem eq_implies_key_eq : forall fp v w k k',
+  wf v = true -> wf w = true ->
+  py_same v w = true -> to_hashable fp v = Ok k -> to_hashable fp w = Ok k' -> py_eq k k' = true.
+Proof.
+  intros fp v w k k' H1 H2 Hs Hk Hk'.
+  exact (eq_implies_key_eq_g fp (series_eq fp) (frame_eq fp) v w H1 H2 Hs k k' Hk Hk').
 Qed.
